@@ -36,6 +36,16 @@ def expected : List (String × String × Store × String) := [
   ("ethbridge", "UpdateWhiteListValidator", .oracle, ""), ("ethbridge", "UpdateCethReceiverAccount", .oracle, ""),
   ("ethbridge", "RescueCeth", .oracle, "")]
 
+/-- the handler record the *specification* prescribes (store and role from `expected`; a handler that
+    is not in the table is permissionless).  The judge and the matrix model use this one — never the
+    regenerated record, so that a guard deleted or changed in the code cannot excuse itself. -/
+def specHandler (module name : String) : Handler :=
+  match expected.find? (fun e => e.1 == module && e.2.1 == name) with
+  | some e => { module := module, name := name, msgType := "", store := e.2.2.1, role := e.2.2.2, signerField := "",
+                getSignersField := "", pre := [], guardTop := true, failReturnsError := true, authCalls := 1 }
+  | none => { module := module, name := name, msgType := "", store := .none, role := "", signerField := "",
+              getSignersField := "", pre := [], guardTop := false, failReturnsError := false, authCalls := 0 }
+
 /-- what the table demands of a handler that contains an authorisation call -/
 def rowOK (h : Handler) : Bool :=
   guardFirst h && h.failReturnsError && h.store != .unknown &&
